@@ -407,3 +407,23 @@ class CondTrace(PathFacts):
 
 def conds(alt):
     return {(f[1], f[2]) for f in alt if isinstance(f, tuple) and f[0] == "c"}
+
+
+def lexical_conds(mod, node):
+    """(text, truth) atoms of the If tests that lexically enclose ``node`` (truth = which branch it sits in),
+    up to the enclosing function.  Sufficient for guard idioms of the form `if guard: ... use ...`."""
+    out = set()
+    child = node
+    for anc in mod.ancestors(node):
+        if isinstance(anc, (ast.FunctionDef, ast.AsyncFunctionDef)):
+            break
+        if isinstance(anc, ast.If):
+            in_body = any(child is b for b in anc.body)
+            in_else = any(child is b for b in anc.orelse)
+            if in_body or in_else:
+                truth = in_body
+                out.add((ast.unparse(anc.test), truth))
+                for atom, t in split_and(anc.test, truth):
+                    out.add((ast.unparse(atom), t))
+        child = anc
+    return out
